@@ -313,7 +313,15 @@ def run(prog, cfg, target=None, action='abort', second=None, inline=False,
       ct.start()
       main()
       alive[0] = False
-      ctrl_done.wait(join_s)
+      for _ in range(4):
+        try:
+          ctrl_done.wait(join_s)
+          break
+        except KeyboardInterrupt:
+          # a (re-sent) SIGINT whose Python handler only ran after execute() had
+          # returned: no test is registered any more, the default handler
+          # raised here, in the harness.  The schedule was not realized.
+          info['sigint_after_execute_returned'] = True
       mt = None
     else:
       mt = threading.Thread(target=main, name='vf-main', daemon=True)
